@@ -21,7 +21,7 @@ ASSUMPTIONS = ['sequential histories (concurrent processes computing the same ta
                'which inputs a generated run reads is fixed by its spec (all declared inputs, or all but one that is read from the registry only under a condition that does not hold)']
 BUDGET = {'quick': 75, 'thorough': 1500}
 WANT = {'C04', 'C08'}
-OPTS = {'max_sessions': 4, 'max_chains': 4, 'max_requests': 6, 'p_inspect': 0.3, 'p_force': 0.0, 'p_fault': 0.0, 'p_spawn': 0.1, 'p_shared_registry': 0.2}
+OPTS = {'max_sessions': 4, 'max_chains': 4, 'max_requests': 6, 'p_inspect': 0.3, 'p_force': 0.0, 'p_reset': 0.06, 'p_fault': 0.0, 'p_spawn': 0.1, 'p_shared_registry': 0.2}
 
 
 def run_case(case) -> CaseResult:
